@@ -1,136 +1,15 @@
-(* C06, stream "ledger" — histories of resourceManager.Allocate+Update / Release / Update on
-   one node.
-   input : maxref most  K (id sock node corelocal)*K  R reserved*R  C (node capcpu capmem)*C  M ops
-     op 1 uid n bindreq bind required excl hintflag H bits*H cpu mem      Allocate (+ Update on success)
-     op 2 uid                                                             Release
-     op 3 uid excl k ids*k m (node cpu mem)*m                             Update (restored allocation)
-     op 4 uid n bindreq bind required excl hintflag H bits*H cpu mem hostflag host victimflag victim
-          Allocate with give-backs: preferredCPUs = remaining CPUs of live reservation [host],
-          preemptibleCPUs = CPUs of live pod [victim] (Spec.concretize); on success Release(victim)
-          and Update
-   observable, per op: ok  k ids*k  m (node cpu mem)*m   L (id ref excl)*L   V avail*V
-                       then (cpu mem) of allocatedResources for node 0..7 *)
+(* C06, stream "ledger" — histories of resourceManager.Allocate+Update / Release / pod events /
+   Allocate with give-backs on one node. Wire format: see coq/C06/Codec.v. *)
 From Coq Require Import List ZArith Bool.
-From Verif Require Import Lib.Wire C06.Model C06.Spec.
+From Verif Require Import Lib.Wire C06.Model C06.Spec C06.Codec.
 Import ListNotations.
 Open Scope Z_scope.
 
-Definition dec_cpu (l : list Z) : cpu * list Z :=
-  match l with
-  | i :: s :: n :: k :: t => (mkCpu i (s * 65536 + k) n s, t)
-  | _ => (mkCpu 0 0 0 0, [])
-  end.
-Definition dec_nres (l : list Z) : nres * list Z :=
-  match l with
-  | n :: c :: m :: t => ((n, (c, m)), t)
-  | _ => ((0, (0, 0)), [])
-  end.
-
-Definition dec_op (l : list Z) : op * list Z :=
-  match l with
-  | 1 :: uid :: n :: bindreq :: bind :: required :: excl :: hf :: t =>
-    let '(bits, t1) := take_list t in
-    match t1 with
-    | c :: m :: t2 =>
-      (OAlloc (mkR uid n (zb bindreq) bind (zb required) excl (if zb hf then Some bits else None) c m [] []), t2)
-    | _ => (ORelease (-1), [])
-    end
-  | 4 :: uid :: n :: bindreq :: bind :: required :: excl :: hf :: t =>
-    let '(bits, t1) := take_list t in
-    match t1 with
-    | c :: m :: hof :: ho :: vf :: v :: t2 =>
-      (OAllocR (mkR uid n (zb bindreq) bind (zb required) excl (if zb hf then Some bits else None) c m [] [])
-               (if zb hof then Some ho else None) (if zb vf then Some v else None), t2)
-    | _ => (ORelease (-1), [])
-    end
-  | 2 :: uid :: t => (ORelease uid, t)
-  | 3 :: uid :: excl :: t =>
-    let '(cpus, t1) := take_list t in
-    let '(nr, t2) := decode_seq dec_nres t1 in
-    (OUpdate (mkP uid (dedup cpus) excl nr), t2)
-  | _ => (ORelease (-1), [])
-  end.
-
-Definition decode (inp : list Z) : nopts * list op :=
-  match inp with
-  | maxref :: most :: t =>
-    let '(T, t1) := decode_seq dec_cpu t in
-    let '(rsv, t2) := take_list t1 in
-    let '(cap, t3) := decode_seq dec_nres t2 in
-    let '(ops, _) := decode_seq dec_op t3 in
-    (mkO T maxref (dedup rsv) (zb most) cap, ops)
-  | _ => (mkO [] 1 [] false [], [])
-  end.
-
-Definition sortZ (l : list Z) : list Z := sort_by Z.leb l.
-Definition enc_nres (l : list nres) : list Z :=
-  Z.of_nat (length l) :: flat_map (fun e => [fst e; fst (snd e); snd (snd e)]) l.
-
-Definition dump (o : nopts) (st : lstate) : list Z :=
-  let cs := sort_on (fun a => [aid a]) (l_cpus st) in
-  (Z.of_nat (length cs) :: flat_map (fun a => [aid a; aref a; aexcl a]) cs)
-  ++ encode_list (fst (available (o_topo o) (o_maxref o) (o_reserved o) (l_cpus st) []))
-  ++ flat_map (fun k => let r := lookup_res (Z.of_nat k) (l_numa st) in [fst r; snd r]) (seq 0 8).
-
-Definition obs_step (o : nopts) (st : lstate) (es : list edge) (x0 : op) : lstate * list edge * list Z :=
-  let x := match x0 with
-           | OAllocR rq0 h0 v0 => let '(rq, h, v) := concretize (l_pods st) es rq0 h0 v0 in OAllocR rq h v
-           | _ => x0
-           end in
-  let '(st', r) := step o st x in
-  let head :=
-    match x, r with
-    | OAlloc _, Some p | OAllocR _ _ _, Some p => [1] ++ encode_list (sortZ (p_cpus p)) ++ enc_nres (p_numa p)
-    | OAlloc _, None | OAllocR _ _ _, None => [0; 0; 0]
-    | _, _ => [1; 0; 0]
-    end in
-  let es' :=
-    match x, r with
-    | OAlloc rq, Some _ => edges_del es (r_uid rq)
-    | OAllocR rq h v, Some p => edges_alloc es rq h v (p_cpus p)
-    | ORelease uid, _ => edges_del es uid
-    | OUpdate p, _ => edges_del es (p_uid p)
-    | _, None => es
-    end in
-  (st', es', head ++ dump o st').
-
-Fixpoint run_ops (o : nopts) (st : lstate) (es : list edge) (ops : list op) : list Z :=
-  match ops with
-  | [] => []
-  | x :: t => let '(st', es', out) := obs_step o st es x in out ++ run_ops o st' es' t
-  end.
-
 Definition run_case (inp : list Z) : list Z :=
-  let '(o, ops) := decode inp in run_ops o l_init [] ops.
-
-(* ---- parsing the implementation's observable ---- *)
-Definition dec_led (l : list Z) : (Z * Z) * list Z :=
-  match l with
-  | i :: r :: _ :: t => ((i, r), t)
-  | _ => ((0, 0), [])
-  end.
-Fixpoint pairs (k : nat) (l : list Z) : list res2 * list Z :=
-  match k with
-  | O => ([], l)
-  | S k' => match l with
-            | a :: b :: t => let '(r, rest) := pairs k' t in ((a, b) :: r, rest)
-            | _ => ([], [])
-            end
-  end.
-Definition dec_lobs (l : list Z) : lobs * list Z :=
-  match l with
-  | ok :: t =>
-    let '(cpus, t1) := take_list t in
-    let '(nr, t2) := decode_seq dec_nres t1 in
-    let '(led, t3) := decode_seq dec_led t2 in
-    let '(av, t4) := take_list t3 in
-    let '(nl, t5) := pairs 8 t4 in
-    (mkLO (zb ok) cpus nr led av nl, t5)
-  | [] => (lo_init, [])
-  end.
+  let '(o, ops, _) := decode_hist inp in snd (run_ops o l_init [] ops).
 
 Definition prop_case (inp obs : list Z) : Z :=
-  let '(o, ops) := decode inp in
+  let '(o, ops, _) := decode_hist inp in
   let '(recs, rest) := decode_many dec_lobs (length ops) obs in
   match rest with
   | [] => ledger_code o ops recs
@@ -140,7 +19,7 @@ Definition prop_case (inp obs : list Z) : Z :=
 (* non-trivial: at least three operations, at least one Allocate for two or more CPUs and at
    least one Release or Update *)
 Definition nontrivial_case (inp : list Z) : bool :=
-  let '(o, ops) := decode inp in
+  let '(o, ops, _) := decode_hist inp in
   (3 <=? lenZ ops)
   && existsb (fun x => match x with
                        | OAlloc rq | OAllocR rq _ _ => r_bindreq rq && (2 <=? r_n rq)
